@@ -84,16 +84,21 @@ def h_from_pest(ctx, tier, seed):
     ctx.require(z3.And(z3.ULE(S, E), z3.ULE(E, n)), "span lies within the text the error carries (start <= end <= len)", shape="parse-error span outside its source text")
     ctx.require(z3.And(S == s_, E == e_), "span is the location pest reported")
     ctx.require(n == L and all(models.veq(eng, a, b) is True for a, b in zip(src.bytes, text)), "the source text is the input the offsets refer to", shape="parse-error source text is not the parsed input")
-    # display-span conversion must not underflow
+    # display-span conversion: no underflow, and the label miette renders is exactly the span
+    # (miette's SourceSpan::new / SourceOffset::from are plain constructors: contract models)
+    eng.models["SourceSpan::new"] = lambda e, a, c: Agg("SourceSpan", None, 0, [a[0], a[1]])
+    eng.models["From::from@SourceOffset"] = lambda e, a, c: Agg("SourceOffset", None, 0, [a[0]])
     g = eng.find(trait="From", self_ty="SourceSpan", method="from", trait_generics="Span")
     try:
-        eng.call_fn(g, [span])
+        lab = models.deref(eng.call_fn(g, [span]))
     except Panic as p:
         eng.stats.panic_paths += 1
         ctx.violation("Span -> SourceSpan panicked: %s" % p.kind, site=p.site)
-    except Unmodelled as u:
-        if "SourceSpan::new" not in str(u) and "SourceOffset" not in str(u):
-            raise
+        return
+    off = models.deref(lab.fields[0])
+    off = eng.to_bv(off.fields[0] if isinstance(off, Agg) else off, 64)
+    ln = eng.to_bv(lab.fields[1], 64)
+    ctx.require(z3.And(off == S, off + ln == E), "the label rendered for the error covers exactly the span (offset = start, offset + length = end <= len)", shape="display label differs from the span")
 
 
 def _h(name, fn, bounds, tier="quick", **kw):
